@@ -64,7 +64,7 @@ def gen_cases(tier, seed):
                 if tier == "quick" and r.random() < 0.5:
                     continue
                 yield {"kind": "twin", "entry": entry, "source": list(src), "seed": r.randrange(1 << 30)}
-    for i in range(12 if tier == "quick" else 400):
+    for i in range(30 if tier == "quick" else 400):
         yield {"kind": "alphas", "seed": r.randrange(1 << 30), "sample": N77[i % 5], "reference": N77[(i + 2) % 5]}
     for i in range(24 if tier == "quick" else 300):
         yield {"kind": "isosteric", "seed": r.randrange(1 << 30)}
@@ -365,6 +365,8 @@ def _run_alphas(case, ctx):
         ctx.trivial += 1
         return
     which = r.choice(["sample", "reference", "both"])
+    if case["seed"] % 3 == 0:
+        which = "reference-material-unit-only"
     s2, dsc = (sample, None)
     r2, drf = (ref, None)
     if which in ("sample", "both"):
@@ -375,6 +377,18 @@ def _run_alphas(case, ctx):
         ctx.count("skipped", "conversion refused")
         ctx.trivial += 1
         return
+    if case["seed"] % 3 == 0:
+        # the reference expressed per another amount of reference material (its loadings and its own area change together:
+        # nothing changes for the sample)
+        if r2 is ref:
+            r2 = gen.copy_point(ref)
+        try:
+            mu = r.choice(["kg", "mg"])
+            r2.convert_material(basis_to="mass", unit_to=mu)
+            drf = dict(drf or {}, reference_material_unit=mu)
+            ctx.count("twins", "alpha_s/reference-per-other-material-unit")
+        except Exception:
+            pass
     rb = _call(ch.alpha_s, s2, reference_isotherm=r2, **kw)
     info = {"sample": case["sample"], "reference": case["reference"], "converted": which, "sample_repr": dsc, "reference_repr": drf}
     from pgverif.core import _h
@@ -384,10 +398,15 @@ def _run_alphas(case, ctx):
     # passes them with pressure_unit=<sample's unit> and no mode, and asks for 'mmol' without naming the molar basis
     ref_mode, ref_basis = r2.pressure_mode, r2.loading_basis
     mech = None
-    if ref_mode != "relative" or ref.pressure_mode != "relative":
+    # (the recorded mechanisms act through the reference's stored pressure representation together with the *sample's* pressure
+    # unit, and through the reference's loading basis: where none of these differs between the two runs they act identically in
+    # both and explain no difference)
+    lookup_a = (ref.pressure_mode, ref.pressure_unit, sample.pressure_unit)
+    lookup_b = (r2.pressure_mode, r2.pressure_unit, s2.pressure_unit)
+    if lookup_a != lookup_b and (ref_mode != "relative" or ref.pressure_mode != "relative"):
         # (the result on the original pair is itself affected when the original reference is stored in absolute pressure)
         mech = "alpha_s/reference-not-stored-in-relative-pressure/read-at-wrong-pressures"
-    elif ref_basis != "molar" or ref.loading_basis != "molar":
+    elif ref_basis != ref.loading_basis and (ref_basis != "molar" or ref.loading_basis != "molar"):
         mech = "alpha_s/reference-not-stored-on-molar-basis/mmol-requested-without-basis"
     if rb[0] != "ok":
         ctx.violation(mech or "alpha_s/raises-after-convert/%s" % type(rb[1]).__name__, "alpha-s succeeds on the pair but raises after a unit conversion", exc=rb[1], **info)
